@@ -35,6 +35,7 @@ type scope struct {
 	// Track disposable scoped instances
 	disposables   []Disposable
 	disposablesMu sync.Mutex
+	drained       bool // set by Close once the disposables have been taken for disposal
 
 	// Child scopes for hierarchical cleanup
 	children   map[*scope]struct{}
@@ -214,12 +215,22 @@ func (s *scope) CreateScope(ctx context.Context) (Scope, error) {
 	// Track child
 	verifGate("K_addChild", s, child)
 	s.childrenMu.Lock()
+	if s.children == nil {
+		// This scope was closed while the child was being created
+		s.childrenMu.Unlock()
+		return nil, abandonScope(child, ErrScopeDisposed)
+	}
 	s.children[child] = struct{}{}
 	s.childrenMu.Unlock()
 
 	// Track in provider
 	verifGate("K_track", s, child)
 	s.rootProvider.scopesMu.Lock()
+	if s.rootProvider.scopes == nil {
+		// The provider was closed while the child was being created
+		s.rootProvider.scopesMu.Unlock()
+		return nil, abandonScope(child, ErrProviderDisposed)
+	}
 	s.rootProvider.scopes[child] = struct{}{}
 	s.rootProvider.scopesMu.Unlock()
 
@@ -237,6 +248,16 @@ func (s *scope) CreateScope(ctx context.Context) (Scope, error) {
 	}()
 
 	return child, nil
+}
+
+// abandonScope closes a scope whose creation overlapped the disposal of its parent
+// or provider and returns the corresponding disposed error.
+func abandonScope(s *scope, disposed error) error {
+	if err := s.Close(); err != nil {
+		return errors.Join(disposed, err)
+	}
+
+	return disposed
 }
 
 // Close disposes the scope and all its resources
@@ -275,6 +296,7 @@ func (s *scope) Close() error {
 	s.disposablesMu.Lock()
 	disposables := s.disposables
 	s.disposables = nil
+	s.drained = true
 	s.disposablesMu.Unlock()
 
 	for i := len(disposables) - 1; i >= 0; i-- {
@@ -328,13 +350,21 @@ func (s *scope) getInstance(key instanceKey) (any, bool) {
 // setInstance caches an instance in this scope in a thread-safe manner.
 // It also tracks the instance if it implements the Disposable interface
 // for proper cleanup when the scope is closed.
-func (s *scope) setInstance(descriptor *Descriptor, key instanceKey, instance any) {
+//
+// If the scope has been closed while the instance was being constructed, the
+// instance is disposed right away and ErrScopeDisposed is returned: an instance
+// is never cached or tracked in a scope whose Close has already drained it.
+func (s *scope) setInstance(descriptor *Descriptor, key instanceKey, instance any) error {
 	switch descriptor.Lifetime {
 	case Singleton:
 		s.rootProvider.setSingleton(key, instance)
 	case Scoped:
 		verifGate("R_store", s)
 		s.instancesMu.Lock()
+		if s.instances == nil {
+			s.instancesMu.Unlock()
+			return s.discardInstance(instance)
+		}
 		s.instances[key] = instance
 		s.instancesMu.Unlock()
 		fallthrough
@@ -342,10 +372,28 @@ func (s *scope) setInstance(descriptor *Descriptor, key instanceKey, instance an
 		if d, ok := instance.(Disposable); ok {
 			verifGate("R_track", s)
 			s.disposablesMu.Lock()
+			if s.drained {
+				s.disposablesMu.Unlock()
+				return s.discardInstance(instance)
+			}
 			s.disposables = append(s.disposables, d)
 			s.disposablesMu.Unlock()
 		}
 	}
+
+	return nil
+}
+
+// discardInstance disposes an instance that was constructed while the scope was
+// being closed and reports the scope as disposed.
+func (s *scope) discardInstance(instance any) error {
+	if d, ok := instance.(Disposable); ok {
+		if err := d.Close(); err != nil {
+			return errors.Join(ErrScopeDisposed, err)
+		}
+	}
+
+	return ErrScopeDisposed
 }
 
 var (
@@ -448,7 +496,9 @@ func (s *scope) createInstance(descriptor *Descriptor) (any, error) {
 			Group: descriptor.Group,
 		}
 
-		s.setInstance(descriptor, key, instance)
+		if err := s.setInstance(descriptor, key, instance); err != nil {
+			return nil, err
+		}
 		s.shareWithAliases(descriptor, instance)
 		return instance, nil
 	}
@@ -493,7 +543,9 @@ func (s *scope) createInstance(descriptor *Descriptor) (any, error) {
 			Key:   descriptor.Key,
 			Group: descriptor.Group,
 		}
-		s.setInstance(descriptor, key, emptyStruct)
+		if err := s.setInstance(descriptor, key, emptyStruct); err != nil {
+			return nil, err
+		}
 		return emptyStruct, nil
 	}
 
@@ -519,6 +571,7 @@ func (s *scope) createInstance(descriptor *Descriptor) (any, error) {
 
 		// Find the primary service to return
 		var primaryService any
+		var storeErr error
 		for _, reg := range registrations {
 			value := reg.Value
 
@@ -553,7 +606,13 @@ func (s *scope) createInstance(descriptor *Descriptor) (any, error) {
 				Group: regDescriptor.Group,
 			}
 
-			s.setInstance(regDescriptor, key, value)
+			if err := s.setInstance(regDescriptor, key, value); err != nil && storeErr == nil {
+				storeErr = err
+			}
+		}
+
+		if storeErr != nil {
+			return nil, storeErr
 		}
 
 		if primaryService == nil {
@@ -569,6 +628,7 @@ func (s *scope) createInstance(descriptor *Descriptor) (any, error) {
 	// Handle multi-return constructors
 	if descriptor.MultiReturnIndex >= 0 {
 		position := 0
+		var storeErr error
 		for _, ret := range info.Returns {
 			if ret.IsError {
 				continue
@@ -600,7 +660,13 @@ func (s *scope) createInstance(descriptor *Descriptor) (any, error) {
 				Group: serviceDescriptor.Group,
 			}
 
-			s.setInstance(serviceDescriptor, key, value)
+			if err := s.setInstance(serviceDescriptor, key, value); err != nil && storeErr == nil {
+				storeErr = err
+			}
+		}
+
+		if storeErr != nil {
+			return nil, storeErr
 		}
 
 		return results[descriptor.MultiReturnIndex].Interface(), nil
@@ -620,7 +686,9 @@ func (s *scope) createInstance(descriptor *Descriptor) (any, error) {
 		Group: descriptor.Group,
 	}
 
-	s.setInstance(descriptor, key, instance)
+	if err := s.setInstance(descriptor, key, instance); err != nil {
+		return nil, err
+	}
 	s.shareWithAliases(descriptor, instance)
 	return instance, nil
 }
@@ -660,7 +728,9 @@ func (s *scope) shareWithAliases(descriptor *Descriptor, instance any) {
 			s.rootProvider.singletonKeysMu.Unlock()
 		case Scoped:
 			s.instancesMu.Lock()
-			s.instances[key] = instance
+			if s.instances != nil {
+				s.instances[key] = instance
+			}
 			s.instancesMu.Unlock()
 		}
 	}
